@@ -9,7 +9,7 @@
 From Coq Require Import Lia.
 From Clikit Require Import Base.Prelude Base.Res Model.Conv Model.Markup Model.OutputM Model.Trace
   Proofs.StrLemmas Proofs.MarkupLemmas Proofs.OutputLemmas Proofs.TraceLemmas Proofs.LiteralLemmas Proofs.TraceRenderLemmas
-  Proofs.TraceSolutionLemmas Proofs.TraceEscLemmas Proofs.TraceFramesLemmas Proofs.TraceBytesLemmas.
+  Proofs.TraceSolutionLemmas Proofs.TraceEscLemmas Proofs.TraceFramesLemmas Proofs.TraceBytesLemmas Proofs.TracePiecesLemmas.
 
 (* ---- the code snippet numbers its lines consecutively and marks exactly the failing line ---- *)
 Theorem line_numbers_length : forall u lines mark, length (line_numbers u lines mark) = length lines.
@@ -649,3 +649,40 @@ Proof.
   - intros E. rewrite E, str_eqb_refl in H4. discriminate.
 Qed.
 Print Assumptions decorated_report_of_a_message_with_escape_codes_refuted.
+
+(* ================= no piece left existential (Proofs/TracePiecesLemmas.v) ================= *)
+(* The byte theorems above say "there are pieces tr_p, sn_p with render_trace ... = Ok (map pline_w tr_p)".  The pieces are
+   functions of the inputs: trace_plines c ind fs (the header, per collection the fold line, per frame the location line and the
+   line(s) under it - the frame's own line highlighted or plain, or at debug verbosity its numbered snippet) and snippet_plines
+   c ind f (blank line, "at file:line in function", the numbered highlighted lines).  The lines written ARE their strings: *)
+Theorem trace_lines_are_their_pieces : forall c ind fs, render_trace c ind fs = Ok (map pline_w (trace_plines c ind fs)).
+Proof. exact trace_plines_w. Qed.
+Print Assumptions trace_lines_are_their_pieces.
+Theorem snippet_lines_are_their_pieces : forall c ind f, render_snippet c ind f = Ok (map pline_w (snippet_plines c ind f)).
+Proof. exact snippet_plines_w. Qed.
+Print Assumptions snippet_lines_are_their_pieces.
+(* they are good pieces in every style table that knows "b" (the inline styles resolve everywhere) *)
+Theorem trace_and_snippet_pieces_are_good : forall sty c ind fs f, resolvable sty st_b ->
+  Forall (fun p : pline => pieces_ok sty (snd p)) (trace_plines c ind fs) /\
+  Forall (fun p : pline => pieces_ok sty (snd p)) (snippet_plines c ind f).
+Proof. intros sty c ind fs f Hb. split; [apply (trace_plines_ok sty Hb)|apply (snippet_plines_ok sty Hb)]. Qed.
+Print Assumptions trace_and_snippet_pieces_are_good.
+(* the full report on an output clikit builds, decorated or not: what is seen of the bytes appended is the report text of these
+   pieces - a function of the exception case, the configuration and the indentation *)
+Theorem full_report_explicit_on_clikit_outputs : forall c o x, clikit_output o -> (0 <= o_indent o)%Z -> x_frames x <> [] ->
+  (decorated o = true -> inputs_ne c x) ->
+  let ind := (o_indent o + 2)%Z in
+  exists w, render c false o x = Ok (o_buf o ++ w) /\
+    vis_of_out o w = report_text ind x (trace_plines c ind (x_frames x)) (snippet_plines c ind (last (x_frames x) dflt_frame)).
+Proof. exact full_report_explicit_clikit. Qed.
+Print Assumptions full_report_explicit_on_clikit_outputs.
+(* non-vacuity: the verbose report of the demo exception with two frames: the stack trace has lines, and the undecorated bytes
+   are the report text of the explicit pieces (computed on both sides) *)
+Example explicit_pieces_instance :
+  let c := RenderExamples.demo_cfg true in
+  let x := RenderExamples.demo_x [RenderExamples.demo_frame; RenderExamples.demo_frame] in
+  (0 < length (trace_plines c 2 (x_frames x)))%nat /\ (0 < length (snippet_plines c 2 RenderExamples.demo_frame))%nat /\
+  match render c false (undecorate ansi_out) x with
+  | Ok b => str_eqb b (report_text 2 x (trace_plines c 2 (x_frames x)) (snippet_plines c 2 RenderExamples.demo_frame))
+  | Err _ => false end = true.
+Proof. vm_compute. repeat split; try reflexivity; lia. Qed.
